@@ -169,6 +169,9 @@ def lifted(ref, block_list, strand, edits, window=None):
         ref = ref[a:b]
     else:
         block_list = tuple(sorted(block_list))
+    if block_list and any(a_ == "" and all(s_ <= bs and be <= e_ for bs, be in block_list) for s_, e_, a_ in ed):
+        # "locations deleted entirely become empty": one pure deletion swallows every block of the location
+        return dict(alt=apply_edits(ref, ed), positions=[], blocks=runs([]), seq="", empty=True)
     if not admissible(block_list, ed):
         return None
     pos = image_positions(len(ref), block_list, ed)
